@@ -22,8 +22,16 @@ func BuildInstrumented(ctx *common.Ctx) (*e1.BuildInfo, error) {
 }
 
 func MkTask(check, mode string, w *wf.WF, scenario string, src SrcSpec, W, bound, policy, shards int, out *[]e1.Task) {
-	p, _ := json.Marshal(Params{Workflow: w.Name, Scenario: scenario, Src: src, Mode: mode})
+	MkTaskPrimed(check, mode, w, scenario, src, W, bound, policy, shards, "", out)
+}
+
+// MkTaskPrimed: as MkTask, with another parallel workflow called first in every execution.
+func MkTaskPrimed(check, mode string, w *wf.WF, scenario string, src SrcSpec, W, bound, policy, shards int, prime string, out *[]e1.Task) {
+	p, _ := json.Marshal(Params{Workflow: w.Name, Scenario: scenario, Src: src, Mode: mode, Prime: prime})
 	name := fmt.Sprintf("%s/%s/W%d/%s/%s/b%d/p%d", mode, w.Name, W, scenario, src, bound, policy)
+	if prime != "" {
+		name = fmt.Sprintf("%s/%s-after-%s/W%d/%s/%s/b%d/p%d", mode, w.Name, prime, W, scenario, src, bound, policy)
+	}
 	for sh := 0; sh < shards; sh++ {
 		*out = append(*out, e1.Task{Check: check, Name: name, Params: p, Bound: bound, Policy: policy, W: W, Shard: sh, NShards: shards, CostAll: true})
 	}
